@@ -20,6 +20,7 @@
 use crate::ToErrorCode;
 
 use air_interpreter_interface::CallResults;
+use air_interpreter_interface::CallServiceResult;
 use fluence_keypair::error::SigningError;
 use strum::EnumCount;
 use strum::IntoEnumIterator;
@@ -34,9 +35,15 @@ use thiserror::Error as ThisError;
 pub enum FarewellError {
     /// Call results should be empty at the end of execution thanks to a execution invariant.
     #[error(
-        "after finishing execution of supplied AIR, there are some unprocessed call results: `{0:?}`, probably a wrong call_id used"
+        "after finishing execution of supplied AIR, there are some unprocessed call results: `{:?}`, probably a wrong call_id used",
+        sorted_call_results(.0)
     )]
     UnprocessedCallResult(CallResults),
+}
+
+/// The error message must not depend on the iteration order of a hash map.
+fn sorted_call_results(call_results: &CallResults) -> std::collections::BTreeMap<&String, &CallServiceResult> {
+    call_results.iter().collect()
 }
 
 impl ToErrorCode for FarewellError {
